@@ -349,7 +349,16 @@ func (c01) Eval(c *Chooser, env *Env) *Outcome {
 				}
 				sort.Strings(all)
 				t := all[c.Int("fault.stattarget", len(all))]
-				w.Faults = append(w.Faults, kern.Fault{Kind: kern.FStatErr, Path: t, Nth: c.Int("fault.nth", 3)})
+				nth := c.Int("fault.nth", 3)
+				if len(cfgs) > 0 && c.Weighted("fault.statconfig", 1, 4) {
+					// every stat of a repository's configuration file fails (not with "does not exist"): the
+					// unchanged code never asks; code that does must not take the error for "no configuration"
+					t, nth = cfgs[c.Int("fault.statcfgsel", len(cfgs))], 0
+					if mustFatal == "" && t != explicitCfg {
+						mustFatal, mustIdx = "the stat of a repository's configuration file fails", len(w.Faults)
+					}
+				}
+				w.Faults = append(w.Faults, kern.Fault{Kind: kern.FStatErr, Path: t, Nth: nth})
 				desc = append(desc, "stat-error@"+t)
 			}
 		}
